@@ -422,3 +422,39 @@ GROUPS.append(Group('X4r', 'removeprefix / removesuffix as str (including the em
                     ['C10', 'C11'], 'U', ['AnsiString.removeprefix', 'AnsiString.removesuffix', 'AnsiString.clip'],
                     rmfix_items, rmfix_task, bounds='none: abstract table, opaque text and affix (startswith/endswith '
                     'uninterpreted)', assumes=['G2', 'SL', 'V5']))
+
+
+# ============================================================================================= X5 / Y2: split with a separator
+CL_SPLIT = [
+    Clause('piece-texts-as-str', 'post_split_texts'),
+    Clause('pieces-keep-settings-at-true-offset', 'post_split_view', forall='split_k_range'),
+    Clause('pieces-wf-new-objects-receiver-untouched', 'post_part_pieces_ok'),
+]
+
+
+def split_items(tier):
+    return [[r, m] for r in (0, 1) for m in ('all', 'sym')]
+
+
+def split_task(envr, item):
+    right, mk = item
+
+    def body(c):
+        s, info = abs_string(c, 'a')
+        sep = sym.s_opaque(c.opaque_text('Sep', 1))
+        maxsplit = -1 if mk == 'all' else c.named_int('maxsplit')
+        run_contract(envr, c, 'AnsiString._split', s, [sep, maxsplit, bool(right)], {}, CL_SPLIT)
+
+    def pool(envr):
+        from pyvc.argkinds import native_receivers
+        for base in native_receivers(envr):
+            for sep in ('a', 'b', 'ab', ' ', 'X', 'bb', 'Xa'):
+                for ms in (-1, 0, 1, 2):
+                    yield ('AnsiString._split', base, [sep, ms, bool(right)], {}, {})
+    return ContractRun(body, CL_SPLIT, use=('ABS',), pool=pool)
+
+
+GROUPS.append(Group('X5', '_split (split/rsplit) with an explicit separator: piece texts as str, pieces keep their settings at '
+                    'their true offsets', ['C10', 'C11'], 'U', ['AnsiString._split'], split_items, split_task,
+                    bounds='results of at most 3 pieces (bounded); text length, separator, maxsplit and table unbounded; '
+                    'str.split/find under assumed contracts', assumes=['G2', 'SL']))
